@@ -112,6 +112,15 @@ func runMany(r *vk.Run, prog []model.Node, compact bool, many int, class string)
 		return nil
 	}
 	if res.Err != nil {
+		// how deep calls may nest is not stated: beyond 64 levels an engine may refuse (with an error, never a panic)
+		var depth int
+		if i := strings.Index(class, "deep-recursion:"); i >= 0 {
+			fmt.Sscanf(class[i:], "deep-recursion:%d", &depth)
+		}
+		if depth > 64 {
+			r.Class("deep recursion refused with an error")
+			return nil
+		}
 		return fail("render failed: %v; reference output %q", res.Err, want.Out)
 	}
 	if !match.SameText(res.Out, want.Out) {
@@ -1291,9 +1300,9 @@ func fixed2(thorough bool) []fixedProg {
 	cd := let("cd", fn(ps("n"), sif(bin("==", v("n"), lit(0)), ret(lit("done"))), ret(call("cd", bin("-", v("n"), lit(1))))))
 	sa := let("sa", fn(ps("n"), sif(bin("<=", v("n"), lit(0)), ret(lit(0))), ret(bin("+", call("sa", bin("-", v("n"), lit(1))), v("n")))))
 	for _, k := range []int{60, 99, 100, 101, 128, 300, 900} {
-		add("deep-recursion", cd, emit(call("cd", lit(k))))
+		add(fmt.Sprintf("deep-recursion:%d", k), cd, emit(call("cd", lit(k))))
 		if k < 900 || thorough {
-			add("deep-recursion", sa, emit(call("sa", lit(k))))
+			add(fmt.Sprintf("deep-recursion:%d", k), sa, emit(call("sa", lit(k))))
 		}
 	}
 
@@ -1529,7 +1538,7 @@ func memberCases() []litClassed {
 }
 
 const rule = "(E) 61 fixed programs: self-recursion whose parameters and lets are read after the inner call returned (sum, fibonacci, a let kept across the call, swapped arguments), swapped and rotated namesake arguments, nested calls, results used in + == < ! || and if tests, emission inside if/for blocks with content after it, aliasing, higher-order application, a function returning a function, recursion to depth 25, first-return-wins with dead code; each in the tag-per-statement and in the compact single-tag layout. " +
-	"(E2) ~135 boundary and state programs x 2 layouts: mutual recursion, self-application, a function local to a body, recursion in tail position with swapped / rotated / mutually dependent arguments, recursion to depth 60..900 (around 100 and 128), a return nested in 1..14 silent or emitting blocks, conditional lets that must be gone in the next call of the same function (directly, in blocks, in loops, through another function) and in the caller, functions of 0/1/2 parameters whose lets are named like variables of the caller, parameters shadowed by let and assigned, return nil / false / \"\" followed by more code, dead code that would fail or count if it were evaluated, calls that fail inside the body and are forgiven by if / == / ! / || with the caller's variables probed afterwards, one call site evaluated 1100 times (succeeding, and failing + forgiven), argument EXPRESSIONS (+, index of an array / hash literal, Go helper call, nested call, ! == && ||) that mention namesakes of the parameters, arguments counted by a tick helper (evaluated exactly once, read or not), values that print alike (1 / \"1\" / 1.0, nil / \"<nil>\", [1,2] / \"[1 2]\", true / \"true\", \"a b\",\"c\" / \"a\",\"b c\") passed to one function in one render, a caller variable rebound between two identical calls, functions and function-valued parameters named like built-in helpers (len raw capitalize partial debug) and like the Go helper of the check, arrays / hashes / floats / functions through parameters and returns, function literals as arguments, results as array elements, hash values, indexes, for-iterables, else-if conditions, operands of ! && || < * - ~=, assigned with =, as silent statements inside if / for blocks and inside other bodies. " +
+	"(E2) ~135 boundary and state programs x 2 layouts: mutual recursion, self-application, a function local to a body, recursion in tail position with swapped / rotated / mutually dependent arguments, recursion to depth 60..900 (around 100 and 128; beyond 64 a refusal with an error is accepted), a return nested in 1..14 silent or emitting blocks, conditional lets that must be gone in the next call of the same function (directly, in blocks, in loops, through another function) and in the caller, functions of 0/1/2 parameters whose lets are named like variables of the caller, parameters shadowed by let and assigned, return nil / false / \"\" followed by more code, dead code that would fail or count if it were evaluated, calls that fail inside the body and are forgiven by if / == / ! / || with the caller's variables probed afterwards, one call site evaluated 1100 times (succeeding, and failing + forgiven), argument EXPRESSIONS (+, index of an array / hash literal, Go helper call, nested call, ! == && ||) that mention namesakes of the parameters, arguments counted by a tick helper (evaluated exactly once, read or not), values that print alike (1 / \"1\" / 1.0, nil / \"<nil>\", [1,2] / \"[1 2]\", true / \"true\", \"a b\",\"c\" / \"a\",\"b c\") passed to one function in one render, a caller variable rebound between two identical calls, functions and function-valued parameters named like built-in helpers (len raw capitalize partial debug) and like the Go helper of the check, arrays / hashes / floats / functions through parameters and returns, function literals as arguments, results as array elements, hash values, indexes, for-iterables, else-if conditions, operands of ! && || < * - ~=, assigned with =, as silent statements inside if / for blocks and inside other bodies. " +
 	"(E3) programs whose called expression is not a name (13 by hand + 768 from a matrix): the result of a call, a function literal, an element of a hash or an array x 8 keys (strings with and without dots, float, int, variable) x 3 suffixes x 4 arguments x {emitted, applied to its own result and compared}; expectation argument + suffix. " +
 	"(R) generated functions of 0-4 parameters (families int/string/bool) whose bodies are if/else-if/else decision chains over the parameters nested to depth 3, every path ending in return <unique label>, with dead code after returns and local lets; argument tuples from literals (incl. nil), plain variables, caller variables NAMED LIKE THE FUNCTION'S OWN PARAMETERS, and calls of the SAME function in any argument position; 12 use sites (emit, let-then-emit, ==, if test, +, string concat, argument of a user function / Go helper, inside if / for blocks with text after, higher-order through a parameter). " +
 	"(R2) call SEQUENCES in one render: 2-3 functions of one signature and 2-5 calls, each direct, through a higher-order function handed any of them, through a parameter NAMED LIKE an already-called function or like a built-in helper, through two function parameters in one body, or through an alias rebound with let / = between calls, so that one called name resolves to different functions at different moments. " +
@@ -1543,7 +1552,7 @@ func setup(t *testing.T) *vk.Run {
 		"function bodies are closed (they mention only their parameters, their own lets, Go helpers and functions defined at the top level that no scope in between rebinds), so lexical and dynamic scoping agree",
 		"a parameter bound to nil reads as an unset name (C10) and hides the caller's variable of that name",
 		"for loops inside function bodies, calls with a wrong number of arguments and the value of a call that reaches no return are not covered by the statement",
-		"the statement sets no bound on recursion; depths up to 900 are demanded (plush documents 1000 nested calls)")
+		"the statement sets no bound on recursion; depths up to 64 are demanded, up to 900 are run: there a render that fails (without a panic) counts as refused for its depth, a render that succeeds must give the value")
 	r.Replayer("fn", func(raw json.RawMessage) *vk.Fail {
 		var c Case
 		if f := vk.Decode(raw, &c); f != nil {
